@@ -8,7 +8,7 @@ BUDGET = {
 }
 DECIDING = ["c09.chain"]
 RULE = ("For each of the 16 source->target pairs: an abstract grid chart (keys the target supports, 1..3 tempo changes on measure lines, "
-        "hits and holds on quarter beats >= 2 grid steps apart per column, first tempo point at 0 / positive / negative ms) is rendered as a "
+        "hits and holds on quarter beats >= 2 grid steps apart per column, first tempo point at 0 / positive / negative ms, optionally an empty right-most lane where the key count is declared, tempo entries listed out of time order in osu / Quaver sources) is rendered as a "
         "source file (.osu text, .qua document, .sm text, BMS lines, OJN bytes); the source-format reference denotes it (and must agree with "
         "the abstract chart); the real reader, converter and writer run; the target-format reference denotes the output. Objects, columns "
         "(with the converter's explicit shift) and the tempo timeline must agree within the coarser resolution and the output must be "
@@ -31,7 +31,16 @@ def gen(rng, tier, k):
     sg, tg = G[a], G[b]
     keys = rng.choice(sorted(set(KEYS_OK[sg]) & set(KEYS_OK[tg])))
     t0 = 0.0 if sg in ("bms", "o2j") else None
+    declared = name in ("QuaToOsu", "SMToOsu", "O2JToOsu", "OsuToQua", "SMToQua", "OsuToBMS", "QuaToBMS", "SMToBMS", "O2JToBMS")
     ab = xfmt.gen_abstract(rng, keys, t0=t0)
+    if declared and keys > 1 and rng.random() < 0.4:
+        # the key count is declared by the source (CircleSize / Mode / chart type / layout): the right-most lane may be empty
+        kept = [n for n in ab["notes"] if n[0] != keys - 1]
+        if kept:
+            ab["notes"] = kept
+            ab["last_lane_empty"] = True
+    if sg in ("osu", "qua") and len(ab["tempo"]) > 1 and rng.random() < 0.4:
+        ab["tempo_rows_reversed"] = True  # tempo entries listed out of time order in the source file
     return dict(cls=name, pair=name, src=sg, tgt=tg, abstract=ab, meta=dict(title=rng.choice(["Title", "a b", "Song 2"]), artist=rng.choice(["Artist", "DJ X"]),
                                                                              creator="me", version=rng.choice(["Hard", "7"])))
 
